@@ -6,10 +6,10 @@ ENGINE = 'chartgen+model'
 RULE = ('generated charts on every host (plain, instrumented, queued, active object; spied or not; instrumented or not): immediately '
         'after start_at and after every step state_name must be the name of the reference model\'s rest state, state_fn must be that '
         'state\'s handler or the function it decorates, and on instrumented queued charts current_state() must return the same name. '
-        'state_name / state_fn are observed only at step boundaries; current_state() is also asked right after client-side is_in / child_state queries between two steps (the chart took no step, the answer must not change). distinct_nontrivial = distinct (host config, rest-state depth, step kind) tuples')
+        'a share of the plain / instrumented host runs use charts in which DIFFERENT states share one function name (state_fn must be the handler of the state the chart is in, not of a namesake); state_name / state_fn are observed only at step boundaries; current_state() is also asked right after client-side is_in / child_state queries between two steps (the chart took no step, the answer must not change). distinct_nontrivial = distinct (host config, rest-state depth, step kind) tuples')
 CASES = {'quick': 3000, 'thorough': 200000}
 BUDGET = {'quick': 150, 'thorough': 300}
-REQUIRE = {'name_observations': 30000, 'plain_host_runs': 200, 'current_state_asked_after_queries': 1000}
+REQUIRE = {'name_observations': 30000, 'plain_host_runs': 200, 'current_state_asked_after_queries': 1000, 'charts_with_states_sharing_a_name': 100}
 ASSUME = ['what state_name shows in the middle of a step or right after an is_in query is not asserted (current_state() is: it asks the current handler)']
 
 
@@ -28,6 +28,12 @@ def run_case(ctx, n):
 def direct_case(ctx, n):
   rng = ctx.rng('direct', n)
   spec = cg.gen_spec(rng, nmax=12, name_style=rng.choice(cg.NAME_STYLES))
+  if rng.random() < 0.3 and spec['n'] >= 3:
+    # DIFFERENT states that share a function name (closures from one builder, an 'idle' substate per mode ...): state_fn must
+    # still be the handler of the state the chart is in, not of a namesake
+    k = rng.randint(1, max(1, spec['n'] // 2))
+    spec['names'] = ['same_name_%d' % (i % k) for i in range(spec['n'])]
+    ctx.count('charts_with_states_sharing_a_name')
   start = rng.randrange(spec['n'])
   script = cg.gen_script(rng, spec, rng.randint(5, 40))
   cfg = {'host': rng.choice(['plain', 'instr']), 'spied': rng.random() < 0.5}
